@@ -295,7 +295,13 @@ def opResample (j : Json) : Except String Json := do
     let v : Rat ← get j "value"
     let x : List Rat ← get j "x"
     let t : List (List Nat) ← get j "table"
-    pure (obj [("out", enc (exportBoot v x t))])
+    match j.getObjVal? "samples" with
+    | .ok sj => do
+      let smp : Nat ← dec sj
+      match exportBootChecked smp v x t with
+      | some out => pure (obj [("out", enc out)])
+      | none => pure (obj [("exc", Json.str "shape")])
+    | .error _ => pure (obj [("out", enc (exportBoot v x t))])
   | _ => .error "unknown resample"
 
 /-- op "schema": {"doc": json} -> {"valid": bool, "where": text} against the regenerated schema -/
